@@ -2,6 +2,7 @@
 //! usage: verif-harness <property> <tier> <seed> <outfile> [extra...]
 mod c04;
 mod c05;
+mod c06;
 mod c07;
 mod c08;
 mod c10;
@@ -84,6 +85,10 @@ fn main() {
         "c16" => {
             let scratch = args.get(5).cloned().unwrap_or_else(|| "/verif/.build/scratch".to_string());
             c16::run(&mut out, tier, seed, &scratch)
+        }
+        "c06" => {
+            let scratch = args.get(5).cloned().unwrap_or_else(|| "/verif/.build/scratch".to_string());
+            c06::run(&mut out, tier, seed, &scratch)
         }
         "c13" => {
             let scratch = args.get(5).cloned().unwrap_or_else(|| "/verif/.build/scratch".to_string());
